@@ -58,24 +58,16 @@ Theorem C20_optimizer_subst_preserves : forall g sigma fuel,
 Proof. exact optimizer_subst_preserves. Qed.
 Print Assumptions C20_optimizer_subst_preserves.
 
-(* 3b. Page content streams (Configuration.OptimizeDuplicateContentStreams, off by default):
-      optimizeContentStreamUsage compares only the raw bytes, not the stream dictionaries.
-      The full statement "a content stream is replaced only by one with the same unfolding"
-      is REFUTED (same Raw, one of them with /Filter /ASCIIHexDecode; reproduced on the real
-      api.Optimize by the harness: class content-dedup-same-raw-different-filter) ... *)
-Theorem C20_content_dedup_refuted : exists g a b,
-  wfg g /\ contentStreamDup (g a) (g b) = true /\ ~ (forall n, sim n g (ORef a 0) g (ORef b 0)).
-Proof. exact content_dedup_refuted. Qed.
-Print Assumptions C20_content_dedup_refuted.
-
-(* ... and holds as soon as the stream dictionaries are compared too. *)
-Theorem C20_content_dedup_partial : forall g fuel a b d1 r1 d2 r2,
-  wfg g -> g a = OStream d1 r1 -> g b = OStream d2 r2 ->
-  contentStreamDup (g a) (g b) = true ->
-  EqualObjects fuel g (ODict d1) (ODict d2) [] = CT ->
+(* 3b. Page content streams (Configuration.OptimizeDuplicateContentStreams): the duplicate
+      test of optimizeContentStreamUsage (same StreamLength and EqualObjects on the two stream
+      dicts, since the fix "deduplicate content streams only when their stream dicts are equal
+      too") only identifies streams with the same unfolding: dictionaries (filters, decode
+      parameters) and bytes.  A corollary of theorem 1. *)
+Theorem C20_content_dedup_preserves : forall g fuel a b,
+  wfg g -> contentStreamDup fuel g (g a) (g b) = CT ->
   forall n, sim n g (ORef a 0) g (ORef b 0).
-Proof. exact content_dedup_partial. Qed.
-Print Assumptions C20_content_dedup_partial.
+Proof. exact content_dedup_preserves. Qed.
+Print Assumptions C20_content_dedup_preserves.
 
 (* 4. "Shows the same" is an equivalence (also across graphs). *)
 Theorem C20_unfolding_equivalence :
